@@ -41,9 +41,13 @@ PROPS = {
 
 HIST_NOTE = LEAVES + "; histories of <= 20 (quick) / 40 (thorough) operations on <= 3 dimensions x 3 attributes in the correspondence, theorems unbounded"
 
+DS = {"name": "ds", "configs": ONE}
+DS_TEXT = "; the data structures underneath (Dict, RevisionMap, RevisionVec) are also driven directly through the cfg-guarded hook `verif_hooks`, operation by operation, against the Lean definitions the theorems are about (campaign `ds`)"
+
 def _hist_prop(pid, modules, text, note=HIST_NOTE, configs=ONE):
     # the quick tier runs the default configuration; the thorough tier both (the second one is P-256 + ML-KEM-768)
-    PROPS[pid] = {"modules": modules, "campaigns": [hist(pid, BOTH)], "level_text": text, "level_note": note}
+    PROPS[pid] = {"modules": modules, "campaigns": [hist(pid, BOTH)] + ([DS] if pid in ("C03", "C04", "C05") else []),
+                  "level_text": text + (DS_TEXT if pid in ("C03", "C04", "C05") else ""), "level_note": note}
     if configs == ONE:
         PROPS[pid]["quick_configs"] = ONE
 
@@ -91,8 +95,8 @@ PROPS["C13"] = {
     "level_note": "leaf (scalar / point / ML-KEM) encodings are opaque fixed-size blobs with an abstract validity predicate; Rust's String::from_utf8 is modelled by Lean's String.validateUTF8",
 }
 PROPS["C14"] = {
-    "modules": ["CC.Props.C14"], "campaigns": [hist("C14", BOTH)], "quick_configs": ONE, "tables": {"allocs": "supporting"},
-    "level_text": "Lean theorems over the wire model for every byte string: reading a count consumes input; a length-prefixed vector is read only when it fits in the remaining input; a loop `for 0..n` whose reader consumes input performs at most |input|+1 reads whatever n (up to 2^64-1) and fails when n exceeds the input; pre-allocations are bounded by the remaining input (and every with_capacity / read_vec site of the source is re-extracted on every run and checked to be the bounded form); decoded encapsulations have at least one trap; the revision iterator terminates (zero chains included). Oracle on the real code in worker processes (RLIMIT_AS, watchdog, counting allocator): truncations, byte corruptions, boundary counts, random strings; accepted mutants are used; accepted => accepted by the model",
+    "modules": ["CC.Props.C14"], "campaigns": [hist("C14", BOTH), {"name": "ds", "configs": ONE}], "quick_configs": ONE, "tables": {"allocs": "supporting"},
+    "level_text": "Lean theorems over the wire model for every byte string: reading a count consumes input; a length-prefixed vector is read only when it fits in the remaining input; a loop `for 0..n` whose reader consumes input performs at most |input|+1 reads whatever n (up to 2^64-1) and fails when n exceeds the input; pre-allocations are bounded by the remaining input (and every with_capacity / read_vec site of the source is re-extracted on every run and checked to be the bounded form); decoded encapsulations have at least one trap; the revision iterator terminates (zero chains included). Oracle on the real code in worker processes (RLIMIT_AS, watchdog, counting allocator): truncations, byte corruptions, boundary counts, random strings; accepted mutants are used; accepted => accepted by the model; the revision iterator of the real RevisionVec is driven directly (hook `verif_hooks`) on chains of unequal lengths, empty chains and no chain at all against `revisions` (campaign `ds`)",
     "level_note": "time / memory of the leaves' own decoders (curve points, ML-KEM keys) and of the allocator are outside the model; the worker-process oracle measures them with fixed linear bounds",
 }
 
